@@ -47,7 +47,8 @@ def run_cli(argv):
     rc = None
     with contextlib.redirect_stdout(out), contextlib.redirect_stderr(err):
         try:
-            rc = cli.main(list(argv))
+            # the argument vector is any sequence of strings (a list, a tuple)
+            rc = cli.main(tuple(argv) if len(argv) % 2 else list(argv))
         except SystemExit as e:
             rc = e.code
         except BaseException as e:       # a traceback instead of "mosromgr error: ..." and status 2
